@@ -107,3 +107,8 @@ Definition hstep (prog : list instr) (pc : nat) (s : mstate) (tabs : list htab) 
   | Some (s', tabs', st) => (s', tabs', st, S pc)
   | None => let '(s', st, pc') := step prog pc s in (s', tabs, st, pc')
   end.
+
+(* with a packet (validation of the helper calls against the running kernel: harness/hash_check.py) *)
+Definition exec_hash_pkt (prog : list instr) (pk : list Z) (ms : list (list Z)) (tabs : list htab) : V :=
+  let '(s, tabs', st) := hrun (4 * length prog + 64) prog 0 (init_state pk ms []) tabs in
+  VL [v_status st; VZ (reg s 0 mod W32); VR (pkt s); VL (map VB (maps s)); VL (map v_tab tabs')].
